@@ -21,6 +21,7 @@ import (
 
 type step struct {
 	Act   string         `json:"act"`
+	S     string         `json:"s"`
 	Name  string         `json:"name"`
 	Dt    int            `json:"dt"`
 	Value int            `json:"value"`
@@ -36,7 +37,7 @@ type trace struct {
 func (t *trace) sig() string {
 	var b strings.Builder
 	for _, s := range t.Steps {
-		fmt.Fprintf(&b, "%s/%s/%d;", s.Act, s.Name, s.Dt)
+		fmt.Fprintf(&b, "%s/%s/%s/%d;", s.Act, s.S, s.Name, s.Dt)
 	}
 	return b.String()
 }
@@ -44,7 +45,8 @@ func (t *trace) sig() string {
 type rig struct {
 	srv  *fixture.Server
 	conn *fixture.VConn
-	c    *wire.Client
+	c    *wire.Client            // observer: STATUS
+	cs   map[string]*wire.Client // the model's client sessions
 	now  int
 	log  []string
 }
@@ -78,7 +80,43 @@ func start(now int, old *rig) (*rig, error) {
 	if res := c.Login("user", "pass"); res.Status != "OK" {
 		return nil, fmt.Errorf("login: %s %s", res.Status, res.Text)
 	}
-	return &rig{srv: srv, conn: conn, c: c, now: now}, nil
+	rg := &rig{srv: srv, conn: conn, c: c, now: now, cs: map[string]*wire.Client{}}
+	for _, name := range []string{"s1", "s2"} {
+		sc, err := wire.Dial(srv.Addr)
+		if err != nil {
+			return nil, err
+		}
+		if res := sc.Login("user", "pass"); res.Status != "OK" {
+			return nil, fmt.Errorf("login: %s %s", res.Status, res.Text)
+		}
+		rg.cs[name] = sc
+	}
+	return rg, nil
+}
+
+func (r *rig) closeClients() {
+	r.c.Close()
+	for _, c := range r.cs {
+		c.Close()
+	}
+}
+
+// session returns the connection of a model session ("" in scripted witnesses = s1).
+func (r *rig) session(s string) *wire.Client {
+	if c := r.cs[s]; c != nil {
+		return c
+	}
+	return r.cs["s1"]
+}
+
+// remoteID of a mailbox the connector knows by name.
+func (r *rig) remoteID(name string) (imap.MailboxID, bool) {
+	for id, n := range r.conn.Mailboxes {
+		if len(n) == 1 && n[0] == name {
+			return id, true
+		}
+	}
+	return "", false
 }
 
 var reUIDV = regexp.MustCompile(`UIDVALIDITY (\d+)`)
@@ -125,15 +163,30 @@ func Run(r *ev.Run, tier string) {
 		r.Machinery("TLC simulation of GluonValidity: err=%v violated=%q error=%q behaviours=%d", err, res.Violated, res.Error, len(traces))
 		return
 	}
+	// bounded exhaustive: every behaviour of 6 CREATE / refused CREATE / DELETE steps of two sessions on one name
+	// (GluonValidity.all.cfg), replayed on ONE server whose sessions live through all of them; each behaviour
+	// uses a name of its own
+	if !runAll(r, specDir) {
+		return
+	}
 	// the scripted witness of F16 first: three creates in one second, delete the last, restart at once, re-create it
 	witness := &trace{Steps: []step{{Act: "Create", Name: "va"}, {Act: "Create", Name: "vb"}, {Act: "Create", Name: "vc"},
 		{Act: "Delete", Name: "vc"}, {Act: "Restart", Dt: 0, Ahead: true}, {Act: "Create", Name: "vc", F16: true, Ahead: true}}}
 	traces = append([]*trace{witness}, traces...)
 	for ti, t := range traces {
+		if !replaySim(r, ti, t) {
+			return
+		}
+	}
+}
+
+// replaySim replays one behaviour (with restarts) on a server of its own. false = machinery problem, stop.
+func replaySim(r *ev.Run, ti int, t *trace) bool {
+	{
 		rg, err := start(1, nil)
 		if err != nil {
 			r.Machinery("validity: cannot start a server: %v", err)
-			return
+			return false
 		}
 		best := map[string]int{}
 		ahead := false
@@ -166,17 +219,59 @@ func Run(r *ev.Run, tier string) {
 			ahead = st.Ahead
 			switch st.Act {
 			case "Create":
-				res := rg.c.Cmd("CREATE " + st.Name)
-				rg.logf("CREATE %s -> %s", st.Name, res.Status)
+				if st.S == "conn" {
+					id := imap.MailboxID(fmt.Sprintf("vm-%s-%d-%d", st.Name, ti, i))
+					err := rg.conn.Submit(imap.NewMailboxCreated(imap.Mailbox{ID: id, Name: []string{st.Name}, Flags: rg.conn.Flags, PermanentFlags: rg.conn.PermFlags, Attributes: rg.conn.Attrs}), 10*time.Second)
+					rg.logf("connector MailboxCreated %s -> %v", st.Name, err)
+					if err != nil {
+						r.Machinery("validity behaviour %d: MailboxCreated %s acknowledged with %v", ti, st.Name, err)
+						ok = false
+						break
+					}
+					rg.conn.Mailboxes[id] = []string{st.Name}
+					ok = check(i+1, st, st.Name)
+					break
+				}
+				res := rg.session(st.S).Cmd("CREATE " + st.Name)
+				rg.logf("[%s] CREATE %s -> %s", st.S, st.Name, res.Status)
 				if res.Status != "OK" {
 					r.Machinery("validity behaviour %d: CREATE %s answered %s %s", ti, st.Name, res.Status, res.Text)
 					ok = false
 				} else {
 					ok = check(i+1, st, st.Name)
 				}
+			case "CreateRefused":
+				res := rg.session(st.S).Cmd("CREATE " + st.Name)
+				rg.logf("[%s] CREATE %s (exists) -> %s", st.S, st.Name, res.Status)
+				if res.Status != "NO" {
+					r.Machinery("validity behaviour %d: CREATE of the existing %s answered %s %s", ti, st.Name, res.Status, res.Text)
+					ok = false
+				} else {
+					// the existing mailbox keeps its value
+					v, err := rg.validity(st.Name)
+					if err == nil && v != best[st.Name] {
+						r.Violate("C04/validity-changed/CreateRefused", fmt.Sprintf("step %d: a refused CREATE %s changed the UIDVALIDITY of the existing mailbox from %d to %d\nbehaviour:\n  %s", i+1, st.Name, best[st.Name], v, strings.Join(rg.log, "\n  ")),
+							map[string]interface{}{"validity_trace": t})
+						ok = false
+					}
+				}
 			case "Delete":
-				res := rg.c.Cmd("DELETE " + st.Name)
-				rg.logf("DELETE %s -> %s", st.Name, res.Status)
+				if st.S == "conn" {
+					if id, found := rg.remoteID(st.Name); found {
+						err := rg.conn.Submit(imap.NewMailboxDeleted(id), 10*time.Second)
+						rg.logf("connector MailboxDeleted %s -> %v", st.Name, err)
+						if err == nil {
+							delete(rg.conn.Mailboxes, id)
+							break
+						}
+					}
+				}
+				res := rg.session(st.S).Cmd("DELETE " + st.Name)
+				rg.logf("[%s] DELETE %s -> %s", st.S, st.Name, res.Status)
+				if res.Status != "OK" {
+					r.Machinery("validity behaviour %d: DELETE %s answered %s %s", ti, st.Name, res.Status, res.Text)
+					ok = false
+				}
 			case "Bump":
 				err := rg.conn.Submit(imap.NewUIDValidityBumped(), 10*time.Second)
 				rg.logf("connector UIDValidityBumped -> %v", err)
@@ -191,7 +286,7 @@ func Run(r *ev.Run, tier string) {
 					}
 				}
 			case "Restart":
-				rg.c.Close()
+				rg.closeClients()
 				if err := rg.srv.Close(20 * time.Second); err != nil {
 					r.Machinery("validity: close: %v", err)
 					ok = false
@@ -211,7 +306,7 @@ func Run(r *ev.Run, tier string) {
 			}
 			r.Add("validity_steps_replayed", 1)
 		}
-		rg.c.Close()
+		rg.closeClients()
 		_ = rg.srv.Close(15 * time.Second)
 		rg.srv.RemoveDir()
 		r.Eval("validity:"+t.sig(), true)
@@ -220,4 +315,110 @@ func Run(r *ev.Run, tier string) {
 			r.Sample(map[string]interface{}{"source": "GluonValidity witness F16", "concrete": rg.log})
 		}
 	}
+	return true
+}
+
+// ReplayFile re-executes the behaviour stored in a replay file of this family. false = not such a file.
+func ReplayFile(r *ev.Run, raw json.RawMessage, history json.RawMessage) bool {
+	var hist []*trace
+	if len(history) > 0 && json.Unmarshal(history, &hist) == nil && len(hist) > 0 {
+		// a behaviour of the shared-server family: what the sessions kept from the behaviours before it matters
+		runTraces(r, hist)
+		return true
+	}
+	var t trace
+	if json.Unmarshal(raw, &t) != nil || len(t.Steps) == 0 {
+		return false
+	}
+	shared := true
+	for _, st := range t.Steps {
+		if st.Act == "Restart" || st.Act == "Bump" || st.S == "conn" || st.S == "" {
+			shared = false
+		}
+	}
+	if shared {
+		// the two-session family: the behaviour is replayed on the sessions of one server, twice over (what a session
+		// kept from the first round may matter in the second)
+		runTraces(r, []*trace{&t, &t})
+	} else {
+		replaySim(r, 1, &t)
+	}
+	return true
+}
+
+func runAll(r *ev.Run, specDir string) bool {
+	var traces []*trace
+	res, err := tlc.Run(tlc.Options{SpecDir: specDir, Module: "GluonValidity", Cfg: filepath.Join(specDir, "cfg", "GluonValidity.all.cfg"),
+		Workers: 4, Timeout: 10 * time.Minute, KeepOutput: true,
+		OnJSON: func(raw []byte) {
+			var t trace
+			if json.Unmarshal(raw, &t) == nil && len(t.Steps) > 0 {
+				traces = append(traces, &t)
+			}
+		}})
+	if err != nil || res.Violated != "" || res.Error != "" || !res.Finished || len(traces) == 0 {
+		r.Machinery("TLC on GluonValidity.all.cfg: err=%v violated=%q error=%q behaviours=%d", err, res.Violated, res.Error, len(traces))
+		return false
+	}
+	r.Add("states", res.Distinct)
+	r.Add("transitions", res.Generated)
+	return runTraces(r, traces)
+}
+
+func runTraces(r *ev.Run, traces []*trace) bool {
+	rg, err := start(1, nil)
+	if err != nil {
+		r.Machinery("validity: cannot start a server: %v", err)
+		return false
+	}
+	defer func() {
+		rg.closeClients()
+		_ = rg.srv.Close(15 * time.Second)
+		rg.srv.RemoveDir()
+	}()
+	for ti, t := range traces {
+		rg.log = nil
+		best := 0
+		name := func(n string) string { return fmt.Sprintf("%sx%d", n, ti) }
+		for i := range t.Steps {
+			st := &t.Steps[i]
+			c := rg.session(st.S)
+			switch st.Act {
+			case "Create", "CreateRefused":
+				res := c.Cmd("CREATE " + name(st.Name))
+				rg.logf("[%s] CREATE %s -> %s", st.S, name(st.Name), res.Status)
+				want := map[string]string{"Create": "OK", "CreateRefused": "NO"}[st.Act]
+				if res.Status != want {
+					r.Machinery("validity (all) behaviour %d step %d: CREATE answered %s %s, the specification says %s", ti, i+1, res.Status, res.Text, want)
+					return false
+				}
+				v, err := rg.validity(name(st.Name))
+				if err != nil {
+					r.Machinery("validity (all) behaviour %d step %d: %v", ti, i+1, err)
+					return false
+				}
+				rg.logf("  %s has UIDVALIDITY %d (highest before: %d)", name(st.Name), v, best)
+				if (st.Act == "Create" && v <= best) || (st.Act == "CreateRefused" && v != best) {
+					r.Violate("C04/validity-not-greater/"+st.Act+"/two-sessions", fmt.Sprintf("step %d %s by %s: the name %s has UIDVALIDITY %d, its highest value before was %d\nbehaviour (sessions s1 and s2 of one server, no restart):\n  %s", i+1, st.Act, st.S, name(st.Name), v, best, strings.Join(rg.log, "\n  ")),
+						map[string]interface{}{"validity_trace": t, "validity_history": traces[:ti+1]})
+					return true
+				}
+				best = v
+			case "Delete":
+				res := c.Cmd("DELETE " + name(st.Name))
+				rg.logf("[%s] DELETE %s -> %s", st.S, name(st.Name), res.Status)
+				if res.Status != "OK" {
+					r.Machinery("validity (all) behaviour %d step %d: DELETE answered %s %s", ti, i+1, res.Status, res.Text)
+					return false
+				}
+			}
+			r.Add("validity_steps_replayed", 1)
+		}
+		// leave nothing behind
+		rg.c.Cmd("DELETE " + name("va"))
+		r.Eval("validity-all:"+t.sig(), true)
+		r.Add("traces_validated_against_impl", 1)
+		r.Add("validity_all_behaviours", 1)
+	}
+	return true
 }
